@@ -168,6 +168,12 @@ func (m *TargetsDiscovery) Run(ctx context.Context, sdChan <-chan map[string][]*
 }
 
 func (m *TargetsDiscovery) translateTargets(targets map[string][]*targetgroup.Group) map[string][]*SDTargets {
+	// hold the lock from reading the job configs until the result is stored,
+	// otherwise a concurrent ApplyConfig can remove a job in between and its
+	// targets would be stored again with the old config
+	m.targetsLock.Lock()
+	defer m.targetsLock.Unlock()
+
 	actives := map[string][]*SDTargets{}
 	drops := map[string][]*SDTargets{}
 	for job, tsg := range targets {
@@ -198,9 +204,6 @@ func (m *TargetsDiscovery) translateTargets(targets map[string][]*targetgroup.Gr
 		actives[job] = allActive
 		drops[job] = allDrop
 	}
-
-	m.targetsLock.Lock()
-	defer m.targetsLock.Unlock()
 
 	for job, targets := range actives {
 		m.activeTargets[job] = targets
